@@ -81,6 +81,26 @@ var v1ContentTampers = []v1Tamper{
 		t.ArbitraryData[0] = append(append([]byte(nil), t.ArbitraryData[0]...), 0x42)
 		return true
 	}},
+	{"arbitrary-data-recut", func(t *types.Transaction) bool {
+		// the same bytes in the same number of entries, cut at another place: one byte moves across an entry boundary
+		for i := 0; i+1 < len(t.ArbitraryData); i++ {
+			a, b := t.ArbitraryData[i], t.ArbitraryData[i+1]
+			if bytes.HasPrefix(a, types.SpecifierFoundation[:]) || bytes.HasPrefix(b, types.SpecifierFoundation[:]) {
+				continue
+			}
+			switch {
+			case len(a) > 0:
+				t.ArbitraryData[i] = append([]byte(nil), a[:len(a)-1]...)
+				t.ArbitraryData[i+1] = append([]byte{a[len(a)-1]}, b...)
+				return true
+			case len(b) > 0:
+				t.ArbitraryData[i] = []byte{b[0]}
+				t.ArbitraryData[i+1] = append([]byte(nil), b[1:]...)
+				return true
+			}
+		}
+		return false
+	}},
 	{"add-arbitrary-data", func(t *types.Transaction) bool {
 		if len(t.StorageProofs) > 0 || len(t.Signatures) == 0 {
 			return false
